@@ -55,6 +55,9 @@ pub enum Tamper {
     AltEncoding(u8),
     /// NOT an alteration: the same public key held in another Jacobian representation (see sm2util::point_in_rep)
     KeyRep(u8),
+    /// the key object is made to hold (x, 0), which is on no curve y^2 = x^3 + ax + b' that has the same group law formulas as a point of order two
+    /// ([t](x,0) = O for even t), and (r, s) is forged without any private key: r = (e' + x([s]G)) mod n with r + s even; e' hashed over (x, 0)
+    KeyOrderTwoForged(u64),
 }
 
 fn edges() -> Vec<BigUint> {
@@ -238,6 +241,31 @@ pub fn check(c: &Case) -> CaseResult {
             class = "alt-encoding";
         }
         Tamper::KeyRep(_) => class = "untouched",
+        Tamper::KeyOrderTwoForged(seed) => {
+            let x = from_be(&expand_bytes(*seed, 32)) % pr.p;
+            pk = Some((r2::fp(&x), r2::fp(&BigUint::zero())));
+            if pr.curve.on_curve(&pk) {
+                return pass(false, "accidentally-on-curve");
+            }
+            let (id_b0, _) = id_bytes(c.base.id);
+            let e = r2::digest(id_b0, &pk, &msg);
+            let mut sv = from_be(&expand_bytes(seed ^ 0x51, 32)) % (n - 1u32) + 1u32;
+            let mut forged = None;
+            for _ in 0..64 {
+                let x1 = from_be(&r2::xy(&r2::g_mul(&sv)).unwrap().0);
+                let rr = (&e + &x1) % n;
+                let t = (&rr + &sv) % n;
+                if !rr.is_zero() && !t.is_zero() && !t.bit(0) {
+                    forged = Some((rr, sv.clone()));
+                    break;
+                }
+                sv = (&sv % (n - 1u32)) + 1u32;
+            }
+            let Some((rr, ss)) = forged else { return pass(false, "no-even-t") };
+            put(&mut sig, 0, &rr);
+            put(&mut sig, 1, &ss);
+            class = "off-curve-key-order-two-forgery";
+        }
         Tamper::Multi(region, m) => {
             let (lo, hi, name) = match region % 3 {
                 0 => (0, 32, "multi-r"),
@@ -253,7 +281,14 @@ pub fn check(c: &Case) -> CaseResult {
     let (id_b, id_opt) = id_bytes(id_idx);
     // IDs None and Some("1234567812345678") are the same signer ID: that is not a tampering
     let want = r2::verify(&pk, id_b, &msg, &sig);
-    let mut lpk = lib_pk(&pk).map_err(|e| Fail { key: "entry=Sm2PublicKey::new input=valid-point outcome=rejected".into(), detail: e })?;
+    let mut lpk = if matches!(c.tamper, Tamper::KeyOrderTwoForged(_)) {
+        // no constructor accepts such a point: the object is built through its public field
+        let mut k = lib_pk(&bd.pk).map_err(|e| Fail { key: "entry=Sm2PublicKey::new input=valid-point outcome=rejected".into(), detail: e })?;
+        k.point = lib_point(&pk, &BigUint::one());
+        k
+    } else {
+        lib_pk(&pk).map_err(|e| Fail { key: "entry=Sm2PublicKey::new input=valid-point outcome=rejected".into(), detail: e })?
+    };
     if let Tamper::KeyRep(kind) = &c.tamper {
         lpk.point = point_in_rep(&pk, Some(&from_be(&c.base.d)), *kind, c.base.msg_seed);
     }
@@ -302,6 +337,7 @@ pub fn tamper_strategy() -> impl Strategy<Value = Tamper> {
         5 => (0..3u8, multi::strategy()).prop_map(|(r, m)| Tamper::Multi(r, m)),
         3 => (0..12u8).prop_map(Tamper::AltEncoding),
         3 => (1..6u8).prop_map(Tamper::KeyRep),
+        2 => any::<u64>().prop_map(Tamper::KeyOrderTwoForged),
     ]
 }
 
@@ -410,6 +446,9 @@ pub fn run(ctx: &Ctx) {
             }
             for k in 1..6u8 {
                 v.push(Case { base: b.clone(), tamper: Tamper::KeyRep(k) });
+            }
+            for k in 0..4u64 {
+                v.push(Case { base: b.clone(), tamper: Tamper::KeyOrderTwoForged(k) });
             }
             for t in [Tamper::None, Tamper::InfinityForgery, Tamper::SEqualsNMinusR, Tamper::SwapRS, Tamper::RPlusN, Tamper::SPlusN, Tamper::MsgFlipBit(0), Tamper::MsgFlipBit(0xFFFF_FFFF), Tamper::MsgTruncate, Tamper::MsgExtend(0), Tamper::KeyNeg, Tamper::KeyPlusG, Tamper::KeyOther(1)] {
                 v.push(Case { base: b.clone(), tamper: t });
